@@ -353,6 +353,15 @@ fn probes() -> Vec<(&'static str, Case)> {
         ("release-top-of-three", Case { schema: s2.clone(), stmts: vec![Stmt::Begin, sp("a"), ins(1, 1), sp("b"), ins(2, 2), sp("c"), ins(3, 3), Stmt::Release("c".into()), rb("b"), ins(4, 4), rb("a"), rb("b"), Stmt::Commit] }),
         ("release-second-of-four", Case { schema: s2.clone(), stmts: vec![Stmt::Begin, sp("a"), ins(1, 1), sp("b"), ins(2, 2), sp("c"), ins(3, 3), sp("d"), ins(4, 4), Stmt::Release("b".into()), rb("d"), ins(5, 5), rb("c"), ins(6, 6), rb("a"), rb("c"), Stmt::Commit] }),
         ("release-first-of-four", Case { schema: s2.clone(), stmts: vec![Stmt::Begin, sp("a"), ins(1, 1), sp("b"), ins(2, 2), sp("c"), ins(3, 3), sp("d"), ins(4, 4), Stmt::Release("a".into()), rb("c"), ins(5, 5), rb("b"), rb("d"), Stmt::Commit] }),
+        // repaired defects 59f86921 / c6ce8972 (keys colliding only after normalization) inside savepoints
+        ("unique-after-normalization", Case { schema: Schema { kinds: vec![Kind::Plain, Kind::Varchar3], int_col: vec![true, false], pk: true, uniques: vec![] }, stmts: vec![
+            Stmt::CreateIndex("u1".into(), vec![1], true), Stmt::Begin, sp("a"),
+            Stmt::Insert(vec![vec![v(4), Val::Str("abc".into())], vec![v(5), Val::Str("abcd".into())]]),
+            Stmt::Insert(vec![vec![v(6), Val::Str("xyz".into())]]), Stmt::Insert(vec![vec![v(7), Val::Str("q".into())]]),
+            Stmt::Upsert(vec![v(7), Val::Str("q".into())], 1, Val::Str("xyzw".into())), rb("a"), Stmt::Commit,
+        ] }),
+        // repaired defect e166b44f: a table created, filled, indexed and dropped after the savepoint
+        ("rollback-to-after-create-and-drop-table", Case { schema: s2.clone(), stmts: vec![Stmt::Begin, ins(5, 7), sp("a"), Stmt::Raw("CREATE TABLE u (k INT PRIMARY KEY, w INT)".into()), Stmt::Raw("INSERT INTO u VALUES (2, 5)".into()), Stmt::Raw("CREATE INDEX uw ON u (w)".into()), Stmt::Raw("DROP TABLE u".into()), ins(7, 1), rb("a"), ins(8, 1), rb("a"), Stmt::Commit] }),
         // repaired defect d69656ff, kept as regression probes
         ("delete-after-savepoint (regression: d69656ff)", Case { schema: s2.clone(), stmts: vec![ins(1, 1), ins(2, 2), Stmt::Begin, sp("a"), Stmt::Delete(Pred::Cmp(0, "=", v(1))), rb("a")] }),
         ("update-after-savepoint (regression: d69656ff)", Case { schema: s2.clone(), stmts: vec![ins(1, 1), Stmt::Begin, sp("a"), Stmt::Update(vec![(1, SetE::Const(v(9)))], Pred::All), rb("a")] }),
